@@ -104,7 +104,7 @@ def run(db: DB, rep: Report) -> None:
         rule = o["rule"]
         fi = o["func"]
         node = o["node"]
-        if rule == "B1" and fi is not None and fi.short == "HiFiber.__trans_nodes" and \
+        if rule == "B1" and fi is not None and fi.short.startswith("HiFiber.") and \
                 o["what"].startswith("SFor body"):
             sfor_body = o
             continue
@@ -127,12 +127,14 @@ def run(db: DB, rep: Report) -> None:
     adds_update = any(isinstance(n, ast.Call) and isinstance(n.func, ast.Attribute) and n.func.attr == "add"
                       and n.args and isinstance(n.args[0], ast.Call) and
                       isinstance(n.args[0].func, ast.Attribute) and n.args[0].func.attr == "make_update"
-                      for n in walk_no_nested(tn.node))
+                      for g_ in tn.cls.methods.values() for n in walk_no_nested(g_.node))
+    b1_decided = states != {"N"} or (adds_update and sfor_body is not None)
     rep.check("B1", states == {"N"} and adds_update and sfor_body is not None, db.loc(mu.node), mu.short,
               "for-body:make_update", "make_update() returns a non-empty statement on every path "
               "(states %s) and the update arm adds it" % sorted(states),
               "the body of an emitted for-loop can be empty: make_update() may return an empty "
-              "statement (states %s) or the translator no longer adds it" % sorted(states))
+              "statement (states %s) or the translator no longer adds it" % sorted(states),
+              decided=b1_decided)
 
     # ---- P3m -------------------------------------------------------------------------
     rep.rule("P3m", "TransUtils.sub_hifiber has the shape the substitution model assumes", 1)
